@@ -681,9 +681,20 @@ func (p c04) traced(c *core.Ctx) {
 			return
 		}
 	}
-	if !transient {
+	if !transient && (plan == nil || r.Outcome() != "ok") {
 		return
 	}
+	if !transient {
+		// (no creation failed anywhere in this history: what a dependent keeps from a failed attempt is the subject of
+		// the recorded findings on failed attempts, not of this clause)
+		for _, e := range r.Tracer.Events() {
+			if e.Op == "create-fn" && e.Phase == "ret" && e.Err != "" {
+				return
+			}
+		}
+	}
+	// (with a substituting post-processor also without faults: what a creation handed out as its early reference -
+	// to single points and to every element position of a slice - and what it publishes is one thing)
 	pop := world.Describe(r.Population())
 	points := r.NodePoints(pop)
 	var ps []string
@@ -700,7 +711,15 @@ func (p c04) traced(c *core.Ctx) {
 		}
 		ps = append(ps, q)
 	}
-	c.Count("recreated_after_transient_failure_checked", 1)
+	if transient {
+		c.Count("recreated_after_transient_failure_checked", 1)
+	} else {
+		c.Count("substituted_starts_identity_checked", 1)
+		if len(ps) > 0 {
+			c.Fail("", "early reference and published version of one creation differ among the holders: "+ps[0], failDetail(sc, r, map[string]any{"problems": ps, "substitution_plan": plan}))
+			return
+		}
+	}
 	if len(ps) > 0 {
 		class := ""
 		if plan != nil && earlyRefOfFailedAttemptEscaped(r.Tracer.Events(), r.Outcome() == "error") {
